@@ -1283,4 +1283,97 @@ theorem checkLocalesInner_spec (suppress : Bool) (fuel : Nat) (inherits : List (
       rw [hm' x]
       simp [AMap.get?]
 
+/-! ### one diagnostic per (locale, key path) -/
+
+theorem child_inj (path : KeyPath) (k k' : Str) (h : child path k = child path k') : k = k' := by
+  have h1 : (child path k).path = (child path k').path := by rw [h]
+  simpa [child] using h1
+
+theorem warnings_nodup_flat (top : Str) (implicit suppress : Bool) (path : KeyPath) (locKeys bkiKeys : List Str)
+    (h1 : bkiKeys.Nodup) (h2 : locKeys.Nodup) :
+    (missingFlat top implicit path locKeys bkiKeys ++ surplusW top suppress path locKeys bkiKeys).Nodup := by
+  rw [List.nodup_append]
+  refine ⟨?_, ?_, ?_⟩
+  · unfold missingFlat
+    split
+    · apply List.Pairwise.map (R := (· ≠ ·))
+      · intro a b hab he
+        injection he with _ hp
+        exact hab (child_inj path a b hp)
+      · exact h1.filter _
+    · exact List.nodup_nil
+  · unfold surplusW
+    split
+    · exact List.nodup_nil
+    · apply List.Pairwise.map (R := (· ≠ ·))
+      · intro a b hab he
+        injection he with _ hp
+        exact hab (child_inj path a b hp)
+      · exact h2.filter _
+  · intro a ha b hb hab
+    subst hab
+    unfold missingFlat at ha
+    unfold surplusW at hb
+    split at ha <;> split at hb <;> simp at ha hb
+    obtain ⟨k, _, rfl⟩ := ha
+    obtain ⟨k', _, hk'⟩ := hb
+    cases hk'
+
+/-! ### a successful merge has no group/value mismatch -/
+
+/-- the (reduced) value of the locale fits the builder key -/
+def Fits (cur : PV) : LV → Prop
+  | .subkeys _ _ => cur = .dflt ∨ ∃ l, cur = .subkeys (some l)
+  | .value _ _ => ∀ o, cur ≠ .subkeys o
+
+theorem mergeValue_ok_fits (recMerge : MergeRec) (top : Str) (dto : DefaultTo) (kp : KeyPath) (cur : PV)
+    (lv : LV) (st : St) (r : PV × LV × St) (h : mergeValue recMerge top dto kp cur lv st = .ok r) :
+    Fits cur lv := by
+  cases lv with
+  | value iol d =>
+    intro o ho
+    subst ho
+    rw [mergeValue_value_mismatch] at h
+    simp at h
+  | subkeys locales bkeys =>
+    cases cur with
+    | dflt => left; rfl
+    | subkeys o =>
+      cases o with
+      | some l => right; exact ⟨l, rfl⟩
+      | none => simp [mergeValue, shapeOf] at h
+    | _ => simp [mergeValue, shapeOf] at h
+
+theorem mergeKeys_ok_fits (recMerge : MergeRec) (top : Str) (dto : DefaultTo) (path : KeyPath) :
+    ∀ (bki : BKI) (ks : List (Str × PV)) (accB : BKI) (st : St) r,
+      mergeKeys recMerge top dto path bki ks accB st = .ok r →
+      ∀ k lv v cur, AMap.get? k bki = some lv → AMap.get? k ks = some v → Reduce.reduce v = .ok cur →
+        Fits cur lv := by
+  intro bki
+  induction bki with
+  | nil => intro ks accB st r _ k lv v cur hg; simp [AMap.get?] at hg
+  | cons e rest ih =>
+    obtain ⟨k0, lv0⟩ := e
+    intro ks accB st r h k lv v cur hg hv hr
+    rw [AMap.get?_cons] at hg
+    by_cases hk : k0 = k
+    · subst hk
+      simp only [if_true, Option.some.injEq] at hg
+      subst hg
+      simp only [mergeKeys, hv, hr] at h
+      split at h
+      · simp at h
+      · simp at h
+      · rename_i hmv
+        exact mergeValue_ok_fits _ _ _ _ _ _ _ _ hmv
+    · simp only [hk, if_false] at hg
+      simp only [mergeKeys] at h
+      split at h
+      · simp at h
+      · simp at h
+      · split at h
+        · simp at h
+        · simp at h
+        · exact ih _ _ _ _ h k lv v cur hg (by rw [AMap.get?_insert_ne (Ne.symm hk)]; exact hv) hr
+
 end I18nVerif.Check
